@@ -30,8 +30,9 @@ RULE = (
     "Toff_k; each of whitening / inverse / similarity, when every probe has it, is written and "
     "equals the block-diagonal arrangement of the per-probe matrices; params.py keeps sample_rate "
     "and declares the summed n_channels_dat. The known finding F13 (zero-width probe followed by "
-    "a probe starting at x == 0) is excluded by construction and counted. Half of the cases merge the same probes a second time in the same "
-    "process and verify again. Non-trivial: >=3 probes or unequal channel/template counts.")
+    "a probe starting at x == 0) is excluded by construction and counted. Whitening matrices are general, lower / upper triangular or diagonal (all probes alike, or mixed). "
+    "Half of the cases merge the same probes a second time in the same "
+    "process (a new Merger, or merge() called again on the same object) and verify again. Non-trivial: >=3 probes or unequal channel/template counts.")
 ASSUMPTIONS = ['merging requires amplitudes.npy, pc_feature_ind.npy, template_feature_ind.npy and '
                'spike_clusters.npy in every probe', 'index tables have the same width in every '
                'probe (otherwise they cannot be stacked)']
@@ -41,7 +42,7 @@ ASSUMPTIONS = ['merging requires amplitudes.npy, pc_feature_ind.npy, template_fe
 def _case(draw):
     c = draw(G.merge_case(exclude_f13=F13_KEY in KNOWN, big_templates=True))
     # half of the cases: the same probes are merged a second time in the same process
-    c['again'] = draw(st.booleans())
+    c['again'] = draw(st.sampled_from([False, True, True, 'same-merger']))
     return c
 
 
@@ -164,13 +165,22 @@ def check(case):
     info = {}
     with env.scratch() as d:
         Ts = G.build_probes(case, d)
-        for out in [G.out_dir_for(case, d)] + ([d / 'merged2'] if case.get('again') else []):
+        for out in [G.out_dir_for(case, d)] + ([d / 'merged2'] if case.get('again') is True else []):
             merger, model = G.run_merge(Ts, out, must_return)
             try:
                 model.close()
             except Exception:
                 pass
             _verify(Ts, out, info)
+            if case.get('again') == 'same-merger':
+                # merge() is called again on the same Merger object (same output directory)
+                model = must_return('Merger.merge() (second call on the same object)',
+                                    merger.merge)
+                try:
+                    model.close()
+                except Exception:
+                    pass
+                _verify(Ts, out, info)
     return info
 
 
@@ -199,7 +209,10 @@ def classify(case, info):
     if case.get('f13_excluded'):
         labels.append('f13-shape-excluded')
     if case.get('again'):
-        labels.append('second-merge-in-process')
+        labels.append('second-merge-in-process' + (':same-merger' if case['again'] != True else ''))
+    kinds = set(p.get('wm_kind') for p in ps if p['wm'])
+    if kinds - {None}:
+        labels.append('triangular-or-diagonal-whitening')
     if any(p['nt'] > 32 for p in ps):
         labels.append('probe-with->32-templates')
     return labels, nt
